@@ -1004,7 +1004,7 @@ impl Property for C09 {
         C09 { router: VerifRouter::new(o) }
     }
     fn n_cases(&self, tier: Tier) -> u64 {
-        tier.pick(100_000, 2_500_000)
+        tier.pick(400_000, 8_000_000)
     }
     fn chunk(&self, _tier: Tier) -> u64 {
         10_000
